@@ -16,6 +16,8 @@ import (
 	"fmt"
 	"io"
 	"net"
+	"os"
+	"runtime"
 	"runtime/debug"
 	"strings"
 	"sync"
@@ -816,9 +818,22 @@ func drawTamper(rt *rapid.T, nframes int) tamperPlan {
 // ---------------------------------------------------------------------------
 // waiting on virtual time
 
-// waitDone waits for n signals on ch or a virtual hour; returns false on timeout.
-func waitDone(ch <-chan struct{}, n int) bool {
-	timer := time.NewTimer(time.Hour)
+// runEnv says where a case runs: inside a synctest bubble (virtual time: a stall is a
+// failure of the case) or on real sockets (real time: a stall is inconclusive).
+type runEnv struct {
+	real bool
+}
+
+var bubbleEnv = runEnv{}
+
+// waitDone waits for n signals on ch or a virtual hour (3 real minutes outside
+// bubbles); returns false on timeout.
+func (e runEnv) waitDone(ch <-chan struct{}, n int) bool {
+	d := time.Hour
+	if e.real {
+		d = 3 * time.Minute
+	}
+	timer := time.NewTimer(d)
 	defer timer.Stop()
 	for i := 0; i < n; i++ {
 		select {
@@ -828,4 +843,18 @@ func waitDone(ch <-chan struct{}, n int) bool {
 		}
 	}
 	return true
+}
+
+// stalled reports a case whose workers did not finish. In a bubble virtual time only
+// advances when every goroutine is blocked, so this is a genuine deadlock / lost wakeup
+// and fails the case; on real sockets it is a resource problem: inconclusive.
+func (e runEnv) stalled(f failer, format string, a ...any) {
+	if !e.real {
+		f.Fatalf(format, a...)
+	}
+	buf := make([]byte, 4<<20)
+	buf = buf[:runtime.Stack(buf, true)]
+	fmt.Fprintf(os.Stderr, "INCONCLUSIVE (real-time stall): %s\n%s\n", fmt.Sprintf(format, a...), buf)
+	stats.Flush()
+	os.Exit(3)
 }
